@@ -229,6 +229,23 @@ CHECKS["C17"] = (True, "fault_enumeration",
     TRUST + "Faults are injected at Python-level I/O call boundaries, not by "
     "killing the process; eyaml is a stand-in executable.", "6/C17")
 
+CHECKS["C19"] = (True, "exploration",
+    "Hypothesis-generated documents with secrets produced by a stand-in "
+    "eyaml executable; round-trip oracle (decrypt under new / old keys) plus "
+    "frame and invocation-count invariants",
+    "Seeded Hypothesis documents mixing plaintext with encrypted scalars at "
+    "arbitrary positions (hash values, list elements, anchored + aliased, "
+    "plain / quoted / folded / literal styles, awkward plaintexts), alone "
+    "or two files per run, are rotated through the real eyaml-rotate-keys "
+    "entry point against a stand-in eyaml: every secret must decrypt under "
+    "the new keys to its old plaintext and no longer under the old keys, "
+    "aliases stay shared and are rotated once, everything else and the "
+    "bytes/mtime of secret-free files are untouched, .bak equals the "
+    "pre-image.",
+    TRUST + "The real hiera-eyaml binary is absent; "
+    "vp/tools/fake_eyaml.py implements the same command-line protocol with "
+    "a keyed reversible cipher.", "6/C19")
+
 ALL = ["C%02d" % i for i in range(1, 20)]
 
 
